@@ -31,7 +31,8 @@
 //!
 //! Not judged (the statement is silent): the order of the entries inside the result, which error is
 //! returned, targets that are not permutations, sets in which a class without entry shares a name
-//! with an entry or is an inner class of one (`Domain`); these are explored for panics only.
+//! with an entry (`Domain`); these are explored for panics only. (A class without entry that is named like
+//! an inner class of an entry is an unmapped class and keeps its whole name — judged since session 5.)
 
 use std::collections::{BTreeMap, BTreeSet, VecDeque};
 use std::sync::{Arc, Mutex};
@@ -338,15 +339,15 @@ fn ref_reorder(s: &MSet, sigma: &[u8]) -> Expect {
 /// * If that name is also the name of an entry of the set in some namespace, two classes share a
 ///   name there: the set is not a one-to-one renaming, `reorder` cannot be undone, and the statement
 ///   cannot be meant for it.
-/// * If it is an inner class (`X$Y`) of a name of an entry, the statement does not say whether the
-///   outer part follows the entry or the whole name stays.
+/// * If it is an inner class (`X$Y`) of a name of an entry it is still a class without entry: unmapped, it keeps
+///   its whole name (judged; until session 5 such sets were explored for "no panic" only, which let a
+///   "the inner class follows its outer class" fallback in the class table through).
 ///
-/// Such sets are explored for "no panic" only.
+/// Sets of the first kind are explored for "no panic" only.
 #[derive(Clone, Copy, Debug, PartialEq, Eq)]
 enum Domain {
 	In,
 	UnmappedNameClash,
-	InnerOfMapped,
 }
 
 impl Domain {
@@ -354,14 +355,14 @@ impl Domain {
 		match self {
 			Domain::In => "in",
 			Domain::UnmappedNameClash => "unmapped-name-clash",
-			Domain::InnerOfMapped => "inner-of-mapped",
 		}
 	}
 }
 
 fn domain(s: &MSet) -> Domain {
 	let cells: BTreeSet<&str> = s.classes.values().flat_map(|c| c.names.iter().filter_map(|x| x.as_deref())).collect();
-	let mut result = Domain::In;
+	let result = Domain::In;
+	let mut inner_of_mapped = false;
 	for c in s.classes.values() {
 		let descs = c.fields.keys().map(|k| &k.1).chain(c.methods.keys().map(|k| &k.1));
 		for d in descs {
@@ -373,12 +374,26 @@ fn domain(s: &MSet) -> Domain {
 					return Domain::UnmappedNameClash;
 				}
 				if u.char_indices().any(|(i, ch)| ch == '$' && cells.contains(&u[..i])) {
-					result = Domain::InnerOfMapped;
+					// judged since session 5: a class without an entry is an unmapped class whatever its name looks like
+					// (the quantifier names "mapped, unmapped and array classes"; C06 states "leaves it unchanged when
+					// unmapped" for the very remapper reorder uses), so it keeps its whole name
+					inner_of_mapped = true;
 				}
 			}
 		}
 	}
+	let _ = inner_of_mapped;
 	result
+}
+
+/// does a descriptor mention a class without entry whose name is `X$…` for a name `X` of an entry?
+fn mentions_inner_of_mapped(s: &MSet) -> bool {
+	let cells: BTreeSet<&str> = s.classes.values().flat_map(|c| c.names.iter().filter_map(|x| x.as_deref())).collect();
+	s.classes.values().any(|c| {
+		c.fields.keys().map(|k| &k.1).chain(c.methods.keys().map(|k| &k.1)).any(|d| {
+			mentioned_classes(d).iter().any(|u| !s.classes.contains_key(u) && u.char_indices().any(|(i, ch)| ch == '$' && cells.contains(&u[..i])))
+		})
+	})
 }
 
 fn all_descriptors(s: &MSet) -> Vec<&str> {
@@ -1064,6 +1079,9 @@ fn step(env: &Env, st: &mut Stats, last: &St, g: usize) -> Option<St> {
 	}
 	st.outcome("step:judged");
 	st.outcome(&format!("judged-transitions:{}", uni.label));
+	if mentions_inner_of_mapped(&last.set) {
+		st.outcome("step:judged:descriptor-mentions-an-unmapped-inner-class-of-a-mapped-class");
+	}
 	let r = judge(env, st, "step", &last.set, sigma, &replay)?;
 	for f in features(&last.set, sigma) {
 		st.outcome(&format!("feature:{f}"));
@@ -1294,6 +1312,7 @@ fn main() {
 		ctx.floor(&format!("refusals solely because a {level} has no name in the new first namespace"), 1, sum(&|k| k.ends_with(&only)));
 	}
 	ctx.floor("refusals because two entries get the same key", 1, sum(&|k| k.contains(":refused:") && k.contains("collision")));
+	ctx.floor("judged transitions on sets whose descriptors mention an unmapped inner class of a mapped class", 100, stats.get("step:judged:descriptor-mentions-an-unmapped-inner-class-of-a-mapped-class"));
 	ctx.floor("transitions whose descriptors changed", *ns.last().unwrap() as u64, stats.get("step:ok:descriptors-changed"));
 	ctx.floor("every state evaluated by the oracle", states, stats.get("state:evaluated"));
 	ctx.floor("every judged transition is a real execution compared with the reference", stats.get("step:judged"), sum(&|k| k.starts_with("step:ok:") || k.starts_with("step:refused:") || k == "step:violation" || k == "step:panic"));
